@@ -105,6 +105,83 @@ Example C02_example_run :
   end.
 Proof. vm_compute. intuition. Qed.
 
+(** * Parent links (pointer-level model TreeLinksModel.v)
+
+    [lstep] runs cstl_rbtree_insert / __cstl_rbtree_erase (and the bintree
+    functions under them) on a memory of nodes {p; l; r; colour}: every C
+    statement that writes a link or a colour is one memory update, in source
+    order, including every parent-pointer write of __cstl_bintree_rotate and
+    __cstl_bintree_erase and the stack stand-in of __cstl_rbtree_erase.
+    [rep m None t] says that the memory holds the tree [t]: each node's [l]
+    and [r] are the addresses of the roots of its subtrees, each node's [p] is
+    the address of its parent (NULL for the root), colours agree.  [decode]
+    rebuilds the tree from the memory and fails on a wrong parent link, a
+    non-NULL root parent or a node reached twice. *)
+From Cstl Require Import TreeLinksModel TreeLinksProofs TreeLinksSim.
+
+Section C02_links.
+  Variable key : nat -> Z.
+  Notation step := (TreeModel.step key RB).
+  Notation lstep := (TreeLinksModel.lstep key RB).
+
+  (** every history of the pointer-level model is the history of the
+      functional model: same outputs, same outcome (no fault, no abort),
+      final states related by the representation relation *)
+  Theorem C02_links_run_refines ops :
+    match run step t_init ops with
+    | (Done s o1, outs) =>
+      exists sl, run lstep l_init ops = (Done sl o1, outs) /\
+                 lsz sl = sz s /\ lroot sl = raddr (tr s) /\ rep (lm sl) None (tr s)
+    | (Precond, outs) => run lstep l_init ops = (Precond, outs)
+    | _ => False
+    end.
+  Proof.
+    pose proof (lrun_sim key RB ops l_init t_init lrel_init (tinvk_init key RB)) as H.
+    destruct (run step t_init ops) as [[s o1| | |] outs]; auto.
+    destruct H as (sl & E & L & _). exists sl. split; auto.
+  Qed.
+
+  (** in every state reachable by the pointer-level model: the decoder
+      succeeds (so every child's parent link points back at its parent, the
+      root's parent is NULL, no node is linked twice), spelled out for every
+      node of the tree, and the linked structure is a tree that satisfies the
+      red-black rules *)
+  Theorem C02_parent_links sl :
+    reach lstep l_init sl ->
+    exists t,
+      decode key sl = Some t /\ lroot sl = raddr t /\ rep (lm sl) None t /\
+      (forall r, lroot sl = Some r -> n_p (mget (lm sl) r) = None) /\
+      (forall a, In a (addrs t) ->
+         (forall b, n_l (mget (lm sl) a) = Some b -> n_p (mget (lm sl) b) = Some a) /\
+         (forall b, n_r (mget (lm sl) a) = Some b -> n_p (mget (lm sl) b) = Some a)) /\
+      root_black t /\ no_red_red t /\ exists n, black_height t n.
+  Proof.
+    intros R. destruct (lreach_decode key RB sl R) as (s & Rs & D & Hr & Rp & _).
+    exists (tr s). repeat (split; auto).
+    - intros r Hrr. rewrite Hr in Hrr. eapply rep_root_p; eauto.
+    - eapply rep_links; eauto.
+    - eapply rep_links; eauto.
+    - apply (C02_reachable_rules key s Rs).
+    - apply (C02_reachable_rules key s Rs).
+    - apply (C02_reachable_rules key s Rs).
+  Qed.
+End C02_links.
+
+(** Non-vacuity: the history of [C02_example_run] on the pointer-level
+    model ends in a state that decodes to the 11-node tree of the functional
+    model. *)
+Example C02_links_example_run :
+  let key := fun n => nth n [5;3;8;3;5;9;1;1;7;6;2;4;8;0]%Z 0%Z in
+  let ops := [Insert 0; Insert 1; InsertH 2; Insert 3; Insert 4; Insert 5; Insert 6; InsertH 7;
+              Insert 8; Insert 9; Erase 5; Insert 10; Insert 11; Erase 3; InsertH 12; Erase 9;
+              Insert 13; Erase 42] in
+  match fst (run (TreeLinksModel.lstep key RB) l_init ops),
+        fst (run (TreeModel.step key RB) t_init ops) with
+  | Done sl _, Done s _ => decode key sl = Some (tr s) /\ size (tr s) = 11%nat
+  | _, _ => False
+  end.
+Proof. vm_compute. intuition. Qed.
+
 Print Assumptions C02_rules.
 Print Assumptions C02_insert_preserves.
 Print Assumptions C02_insert_hint_preserves.
@@ -117,3 +194,5 @@ Print Assumptions C02_reachable_rules.
 Print Assumptions C02_never_fault.
 Print Assumptions C02_height_reported.
 Print Assumptions C02_run_safe.
+Print Assumptions C02_links_run_refines.
+Print Assumptions C02_parent_links.
